@@ -11,6 +11,7 @@ import (
 	"errors"
 	"fmt"
 	"io"
+	"slices"
 
 	"github.com/andybalholm/brotli"
 	"github.com/klauspost/compress/zstd"
@@ -536,6 +537,14 @@ func (c *UConn) clientHandshake(ctx context.Context) (err error) {
 
 	if err := c.pickTLSVersion(serverHello); err != nil {
 		return err
+	}
+
+	// [uTLS] pickTLSVersion accepts the range TLSVersMin..TLSVersMax; a spec
+	// may list fewer versions than that in supported_versions. Never settle
+	// on a version that was not on the wire.
+	if len(hello.supportedVersions) > 0 && !slices.Contains(hello.supportedVersions, c.vers) {
+		c.sendAlert(alertProtocolVersion)
+		return fmt.Errorf("tls: server selected version %x, which the ClientHello did not offer", c.vers)
 	}
 
 	// If we are negotiating a protocol version that's lower than what we
